@@ -2,6 +2,7 @@ import TantivyModel.Driver.Proto
 import TantivyModel.Model.SSTable.Search
 import TantivyModel.Model.SSTable.Merge
 import TantivyModel.Model.SSTable.AddrStore
+import TantivyModel.Model.SSTable.FileOps
 /-!
 Line protocol of the C15 model (ordered-map spec + sstable block model).
 
@@ -292,6 +293,18 @@ def handle : List String → String
         let store := openStore storeRegion
         let addrs := store.all
         s!"{",".intercalate (addrs.map (fun a => s!"{a.firstOrd}:{a.start}:{a.stop}"))}|{showNats (os.map store.locateOrd)}|reenc={showBool (store.reencodeOk && reencodeStoreOk storeRegion && reencodeStoreOwnOk storeRegion)}"
+    | _, _ => "bad-op"
+  | ["o2t", kind, h, os] =>
+    if kind != "void" && kind != "u64" && kind != "range" then "bad-op" else
+    match bytesOfHex h, valList os with
+    | some bs, some os =>
+      let skip : List UInt8 → List UInt8 :=
+        if kind == "void" then id else if kind == "u64" then (fun p => (loadU64Mono p).2) else (fun p => (loadRange p).2)
+      let f := openFile bs
+      ",".intercalate (os.map (fun o => match openedOrdToTerm skip f o with
+        | none => "Z"
+        | some none => "-"
+        | some (some k) => s!"k{hexOfBytes k}"))
     | _, _ => "bad-op"
   | ["bitpack", vs, ws] =>
     match valList vs, valList ws with
